@@ -347,10 +347,11 @@ PROPS["C05"] = dict(
 
 PROPS["C13"] = dict(
     title="YAML streams round-trip through the kio readers/writers; package writes stay inside the package",
-    modules=["Kust.Props.C13"],
-    theorems=["Kust.C13.emit_read_back", "Kust.C13.scan_emit", "Kust.C13.scan_body", "Kust.C13.untilNewline_spec", "Kust.C13.startsSep_spec", "Kust.C13.scan_flatten", "Kust.C13.split_lossless",
+    modules=["Kust.Props.C13", "Kust.Props.C13b"],
+    theorems=["Kust.C13.multi_document_never_unwrapped", "Kust.C13.disabled_never_unwrapped", "Kust.C13.kept_order", "Kust.C13.lone_wrapper_unwrapped", "Kust.C13.lone_other_kind_kept",
+              "Kust.C13.emit_read_back", "Kust.C13.scan_emit", "Kust.C13.scan_body", "Kust.C13.untilNewline_spec", "Kust.C13.startsSep_spec", "Kust.C13.scan_flatten", "Kust.C13.split_lossless",
               "Kust.C13.dotdot_stays", "Kust.C13.cleanSegs_base", "Kust.C13.pkg_write_confined", "Kust.C13.pkg_rejects_absolute", "Kust.C13.pkg_delete_confined"],
-    components=["kio.split", "kio.pkgpath", "kio.emit"],
+    components=["kio.split", "kio.pkgpath", "kio.emit", "kio.read"],
     oracle=True,
     n_corr={"quick": 3000, "thorough": 40000}, n_oracle={"quick": 600, "thorough": 8000},
     technique="Lean 4 proof (document splitting is lossless for every byte stream; every path annotation the package writer accepts resolves below the package directory, absolute and climbing spellings are rejected) + Go/Lean correspondence of ByteReader's document splitting and LocalPackageWriter's path validation + round-trip oracle (data vs the YAML library's own stream decoder, comment multiset, byte-identical second trip, no reader annotation left, in-memory FS write set)",
